@@ -467,3 +467,48 @@ func VH_C18_Do() {
 	}
 	zzverif.Assert("one-ticket-request-per-challenge", asked == zzverif.CallCount("Client).GetServiceTicket"))
 }
+
+// VH_C18_AcceptorRoundTrip: the token the client sends in answer to a challenge is handed to the library's
+// own acceptor (SPNEGOService with the service's keytab, the real service.VerifyAPREQ - what it demands is
+// C01's subject): it accepts, for the intended service, and reports the client's identity.  The ticket is
+// issued by messages.NewTicket under the service key; ASN.1, encryption and base64 are codec pairs.
+func VH_C18_AcceptorRoundTrip() {
+	et := int32(zzverif.Param("etype"))
+	now := zzverif.Now()
+	skt := keytab.New()
+	skey := zzverif.Bytes(crypto.VHKeyLen(int(et)))
+	skt.VHAddEntry("R", []string{"HTTP", "h1"}, et, 1, skey, time.Unix(1500000000, 0))
+	sname := types.NewPrincipalName(2, "HTTP/h1")
+	cname := types.NewPrincipalName(1, "u")
+	tkt, key, err := messages.NewTicket(cname, "R", sname, "R", types.NewKrbFlags(), skt, et, 1, now.Add(-time.Minute), now.Add(-time.Minute), now.Add(time.Hour), now.Add(2*time.Hour))
+	zzverif.Assume(err == nil)
+	srv := &vhServer{script: []int{1}, tail: 0}
+	kcl := client.NewWithPassword("u", "R", "p", &config.Config{})
+	zzverif.ScriptStub("Client).AffirmLogin", "val")
+	zzverif.ScriptStub("Client).GetServiceTicket", "val", tkt, key)
+	c := NewClient(kcl, &http.Client{Transport: srv}, "")
+	req := &http.Request{Method: "GET", URL: &url.URL{Scheme: "http", Host: "h1", Path: "/"}, Header: http.Header{}}
+	resp, err := c.Do(req)
+	zzverif.Assert("authenticated-exchange-completes", err == nil && resp != nil && resp.StatusCode == 200 && srv.n == 2)
+	if srv.n != 2 {
+		return
+	}
+	hdr := srv.auth[1]
+	zzverif.Assert("authorization-is-negotiate", strings.HasPrefix(hdr, "Negotiate "))
+	b, derr := base64.StdEncoding.DecodeString(strings.TrimPrefix(hdr, "Negotiate "))
+	var st SPNEGOToken
+	zzverif.Assert("token-decodes", derr == nil && st.Unmarshal(b) == nil)
+	ok, ctx, status := SPNEGOService(skt).AcceptSecContext(&st)
+	zzverif.Assert("acceptor-holding-the-service-key-accepts", ok && status.Code == gssapi.StatusComplete)
+	if ok && ctx != nil {
+		id, isCreds := ctx.Value(ctxCredentials).(*credentials.Credentials)
+		zzverif.Assert("acceptor-reports-the-client", isCreds && id != nil && id.UserName() == "u" && id.Domain() == "R")
+	}
+	// the same token presented again is a replay for that acceptor
+	var st2 SPNEGOToken
+	if st2.Unmarshal(b) == nil {
+		ok2, _, _ := SPNEGOService(skt).AcceptSecContext(&st2)
+		zzverif.Assert("same-token-again-is-refused", !ok2)
+	}
+	zzverif.Reach("accepted")
+}
